@@ -276,7 +276,9 @@ func Apply(op ref.Op, in []tensor.Tensor) (tensor.Tensor, error) {
 	case "FC":
 		// a layer whose parameters are the given tensors (replaced through Weights())
 		sh := in[1].Shape()
-		fc, err := layers.NewFC(&layers.FCConfig{Inputs: x.Shape()[1], Outputs: sh[0]})
+		fc, err := cached(fmt.Sprintf("FC/%d/%d", x.Shape()[1], sh[0]), func() (*layers.FC, error) {
+			return layers.NewFC(&layers.FCConfig{Inputs: x.Shape()[1], Outputs: sh[0]})
+		})
 		if err != nil {
 			return nil, err
 		}
@@ -331,6 +333,28 @@ func Catch(f func()) (p any) {
 func RunProgram(p *ref.Program) (ts []tensor.Tensor, failedNode int, err error) {
 	ts = make([]tensor.Tensor, 0, p.NTensors())
 	for i, l := range p.Leaves {
+		if i < len(p.Ctor) && p.Ctor[i] != "" {
+			var t tensor.Tensor
+			var err error
+			dims := append([]int{}, l.Shape...)
+			switch p.Ctor[i] {
+			case "Full":
+				t, err = tensor.Full(dims, l.V[0], Conf(p.Tracked[i]))
+			case "Zeros":
+				t, err = tensor.Zeros(dims, Conf(p.Tracked[i]))
+			case "Ones":
+				t, err = tensor.Ones(dims, Conf(p.Tracked[i]))
+			case "Eye":
+				t, err = tensor.Eye(l.Shape[0], Conf(p.Tracked[i]))
+			default:
+				panic("HARNESS: unknown leaf constructor " + p.Ctor[i])
+			}
+			if err != nil {
+				panic(fmt.Sprintf("HARNESS: leaf constructor %s%v: %v", p.Ctor[i], l.Shape, err))
+			}
+			ts = append(ts, t)
+			continue
+		}
 		ts = append(ts, Make(l, p.Tracked[i]))
 	}
 	for i, n := range p.Nodes {
